@@ -1,5 +1,6 @@
 /-
-  C03 — kernel-checked counterexamples for the open findings, and end-to-end examples.
+  C03 — kernel-checked counterexamples for the open findings (and, about the pinned lexer, for
+  the repaired ones), and end-to-end examples.
   (The line-shape lemmas of the parser are in HL/Props/C03.lean.)
 
   Each journal below is derivable from grammar G (DESIGN.md 4.2) and the model of
@@ -8,6 +9,7 @@
   (witnesses under replays/C03/, replayed on every run).
 -/
 import HL.Model.Pipeline
+import HL.Model.LexerPinned
 namespace HL.Props.C03Cex
 open HL
 
@@ -23,9 +25,28 @@ theorem description_leading_digit_counterexample :
 theorem description_colon_counterexample :
     (HL.Pipeline.parseText Classes.go [50, 48, 50, 52, 45, 48, 49, 45, 49, 53, 32, 115, 104, 111, 112, 58, 32, 102, 111, 111, 100, 10, 32, 32, 32, 32, 97, 58, 98, 32, 32, 49, 32, 85, 83, 68, 10, 32, 32, 32, 32, 99, 58, 100, 10]).2 ≠ [] := by decide +kernel
 
-/-- finding `crlf-line-ends`: CRLF line ends leave a stray text token before each newline (`2024-01-15 x\r\n    a:b  1 USD\r\n    c:d\r\n`). -/
-theorem crlf_line_ends_counterexample :
-    (HL.Pipeline.parseText Classes.go [50, 48, 50, 52, 45, 48, 49, 45, 49, 53, 32, 120, 13, 10, 32, 32, 32, 32, 97, 58, 98, 32, 32, 49, 32, 85, 83, 68, 13, 10, 32, 32, 32, 32, 99, 58, 100, 13, 10]).2 ≠ [] := by decide +kernel
+/-- The journal of the repaired finding `crlf-line-ends`
+    (`2024-01-15 x\r\n    a:b  1 USD\r\n    c:d\r\n`). -/
+def crlfJournal : Bytes := [50, 48, 50, 52, 45, 48, 49, 45, 49, 53, 32, 120, 13, 10, 32, 32, 32, 32, 97, 58, 98, 32, 32, 49, 32, 85, 83, 68, 13, 10, 32, 32, 32, 32, 99, 58, 100, 13, 10]
+
+/-- Repaired finding `crlf-line-ends`: a journal with CRLF line ends parses silently, and its
+    tree has the one transaction with both postings (the general statements are
+    `HL.Props.C03.crlf_is_lf` and `HL.Props.C03Faithful.C03_faithful_core_crlf`). -/
+theorem crlf_line_ends_parses :
+    (HL.Pipeline.parseText Classes.go crlfJournal).2 = [] ∧
+    (HL.Pipeline.parseText Classes.go crlfJournal).1.transactions.map (·.postings.length) = [2] := by
+  decide +kernel
+
+/-- What the PINNED lexer (HL/Model/LexerPinned.lean: only LF ends a line) did on the same journal:
+    the CR behind `USD` became a Text token with an empty value, the parser reported an error on
+    the first posting line and the transaction lost its second posting. -/
+theorem pinned_crlf_line_ends_counterexample :
+    let r := HL.Parser.parseTokens HL.Parser.defaultNumDeps (HL.Pipeline.parserClasses Classes.go)
+      (HL.Lex.Pinned.lexAll Classes.go crlfJournal)
+    r.2 ≠ [] ∧ r.1.transactions.map (·.postings.length) = [1] ∧
+    ((HL.Lex.Pinned.lexAll Classes.go crlfJournal).filter
+      (fun t => t.ty == .text && t.val.isEmpty)).length = 2 := by
+  decide +kernel
 
 /-- finding `text-commodity-swallows-rest-of-line`: a lower-case right commodity is free text that runs over the cost (`2024-01-15 x\n    a:b  2 hours @ 10 USD\n    c:d\n`). -/
 theorem text_commodity_swallows_counterexample :
